@@ -252,15 +252,26 @@ public:
         if (ec == asio::error::no_recovery)
             _svc.cancel();
 
-        // errors, if any, are propagated to ops
-        for (auto& op : write_queue)
-            op.complete(ec);
-
         if (
             ec == asio::error::operation_aborted ||
             ec == asio::error::no_recovery
-        )
+        ) {
+            // The client is closed: nothing queued meanwhile will be written.
+            // Completing the requests may destroy the client service and
+            // this object with it, so nothing is touched afterwards.
+            auto queued = std::move(_write_queue);
+            auto ex = _svc.get_executor();
+
+            for (auto& op : queued)
+                op.complete_post(ex, asio::error::operation_aborted);
+            for (auto& op : write_queue)
+                op.complete(ec);
             return;
+        }
+
+        // errors, if any, are propagated to ops
+        for (auto& op : write_queue)
+            op.complete(ec);
 
         do_write();
     }
